@@ -170,12 +170,9 @@ func lifecycleOracle(prop string, c *Case, conn int, cs *connState, t *Transcrip
 			switch f.where {
 			case "mw":
 				// middleware i sees 0..i-1 (checked through the "mw" event's sees=)
-				if f.client != wantClient {
-					add("client-parameters", fmt.Sprintf("middleware sees client parameters {%s}, the startup packet carried {%s}", f.client, wantClient))
-				}
-				if f.server != wantServer {
-					add("server-parameters", fmt.Sprintf("middleware sees server parameters {%s}, want {%s}", f.server, wantServer))
-				}
+				// (what a middleware itself sees besides its predecessors' values is
+				// not fixed by the property; only the resulting context handed to
+				// parser and statement calls is judged)
 			case "parse", "stmt":
 				if f.mw != strings.Join(allMW, ",") {
 					add("context-propagation", fmt.Sprintf("%s callback context carries middleware values [%s], want [%s]", f.where, f.mw, strings.Join(allMW, ",")))
